@@ -11,6 +11,7 @@ import (
 	"fmt"
 	"math/big"
 	"os"
+	"runtime/debug"
 	"strconv"
 	"time"
 
@@ -196,7 +197,7 @@ func RunReplays(harnesses map[string]func()) {
 						done <- "assume-failed"
 						return
 					}
-					done <- fmt.Sprintf("%v", r)
+					done <- fmt.Sprintf("%v || %s", r, oneLine(string(debug.Stack())))
 					return
 				}
 				done <- ""
@@ -224,8 +225,8 @@ func oneLine(s string) string {
 		}
 		out = append(out, r)
 	}
-	if len(out) > 300 {
-		out = out[:300]
+	if len(out) > 3000 {
+		out = out[:3000]
 	}
 	return string(out)
 }
